@@ -376,6 +376,10 @@ class Executor:
         self.retsub_any = retsub_any
         self.prefix = prefix  # required leader-pc prefix of the block trace (dispatch path), or None
         self.lead = leaders(prog)
+        # the documented condition under which the tool evaluates intc/intc_N: a single intcblock, in the entry block
+        blocks_ic = [i.idx for i in prog.ins if i.op == "intcblock"]
+        first_leader_after0 = next((k for k in range(1, len(prog.ins)) if self.lead[k]), len(prog.ins))
+        self.intc_resolvable = len(blocks_ic) == 1 and blocks_ic[0] < first_leader_after0
         self.addr_tab = address_table(prog)
         self.n_addr = ADDR_FIRST_LITERAL + len([v for v in self.addr_tab.values() if v >= ADDR_FIRST_LITERAL])
         self.results: List[PathResult] = []
@@ -547,6 +551,9 @@ class Executor:
             return cont(stack, intc=vals)
         if op in ("intc", "intc_0", "intc_1", "intc_2", "intc_3"):
             i = int(a[0]) if op == "intc" else int(op[-1])
+            if not exact and not self.intc_resolvable:
+                # direct-check reading: a constant the tool cannot evaluate is a free run-time value
+                return cont(stack + (V(self._fresh(st, "intc"), None),))
             if st.intc is None or i >= len(st.intc):
                 if not exact:
                     return cont(stack + (V(self._fresh(st, "intc"), None),))
